@@ -11,5 +11,6 @@ let () =
   | "cram" -> D_docs.run_cram ()
   | "md" -> D_docs.run_md ()
   | "gen" -> D_gen.run ()
+  | "upd" -> D_upd.run ()
   | "validate" -> D_exec.run_validate ()
   | x -> prerr_endline ("unknown " ^ x); exit 2
